@@ -627,7 +627,7 @@ pub enum BuiltFmt {
 
 impl EmfCfg {
     /// `None` when the multiplicity cannot be produced exactly (supported: powers of two up to
-    /// 2^62 through rate 2^-k, where alpha = 1 so every draw gives n = 2^k; and u64::MAX through a
+    /// 2^52 through rate 2^-k, where alpha = 1 exactly so every draw gives n = 2^k (beyond 2^53 the f64 sum n+1 rounds); and u64::MAX through a
     /// rate below 2^-63).
     pub fn build_fmt(&self) -> Option<BuiltFmt> {
         match self.multiplicity {
@@ -635,7 +635,7 @@ impl EmfCfg {
             Some(m) => {
                 let rate: f32 = if m == u64::MAX {
                     f32::from_bits(0x1f00_0000) // 2^-65
-                } else if m.is_power_of_two() && m <= (1u64 << 62) {
+                } else if m.is_power_of_two() && m <= (1u64 << 52) {
                     (1.0f64 / m as f64) as f32
                 } else {
                     return None;
